@@ -16,8 +16,8 @@ import numpy as np
 
 from . import env
 
-EVID_DIR = os.path.join(env.VERIF_DIR, 'evidence')
-REPLAY_DIR = os.path.join(env.VERIF_DIR, 'replays')
+EVID_DIR = os.environ.get('PVM_EVID_DIR') or os.path.join(env.VERIF_DIR, 'evidence')
+REPLAY_DIR = os.environ.get('PVM_REPLAY_DIR') or os.path.join(env.VERIF_DIR, 'replays')
 KNOWN_FILE = os.path.join(env.VERIF_DIR, 'known_findings.json')
 
 MAX_REPLAYS = 12
@@ -186,7 +186,8 @@ class Ctx:
             path = self.replaying
         rec['replay'] = path or (self.violations[0].get('replay') if self.violations else None)
         self.violations.append(rec)
-        print(f'VIOLATION property={self.pid} replay={rec["replay"]}  [{mon}] {msg}', flush=True)
+        if len(self.violations) <= MAX_REPLAYS:
+            print(f'VIOLATION property={self.pid} replay={rec["replay"]}  [{mon}] {msg}', flush=True)
 
     def known(self, key, what, detail=None):
         """
@@ -343,8 +344,14 @@ def run_workloads(ctx, spec, only=None):
             except Exception as e:      # an exception escaping a legal workload is a finding in itself
                 tb = traceback.format_exc(limit=12)
                 in_repo = any(env.REPO in (fr.filename or '') for fr in traceback.extract_tb(e.__traceback__))
-                ctx.fail('no-exception' if in_repo else 'harness-error',
-                         f'{type(e).__name__}: {str(e)[:200]}', {'traceback': tb})
+                if in_repo:
+                    ctx.fail('no-exception', f'{type(e).__name__}: {str(e)[:200]}', {'traceback': tb})
+                else:
+                    # a crash of the harness itself is not evidence about the property
+                    ctx.mark_inconclusive(f'harness error in {wl.name}[{idx}]: {type(e).__name__}: {str(e)[:120]}')
+                    if ctx.events['harness_errors'] < 3:
+                        print(tb, file=sys.stderr)
+                    ctx.event('harness_errors')
             ctx.workloads[wl.name] += 1
         if wl.exhaustive and not only and n > 0:
             e = dict(wl.exhaustive)
